@@ -194,7 +194,10 @@ CLAIMED = {
               "compared with hexVertices on constructed regular and irregular hexagons in several planes, and "
               "hexLatticeBaseVectors with the construction's translation vectors; the Lean reference semantics locates "
               "sample points in hexagonal lattice decks (six and eight planes, three axes, all orders) against the "
-              "written file. Not proved: the geometric adjacency test (areHexSidesAdjacent) and the axial vector a3."),
+              "written file. The axial vector of an eight-plane prism (hexAxialVector: a vertex projected on the seventh- and "
+              "eighth-listed planes along the axis) is proved to be, for parallel end planes, the multiple of the axis "
+              "that carries the eighth plane onto the seventh (hex_axial_vector) and is compared with the code on "
+              "constructed prisms. Not proved: the geometric adjacency test (areHexSidesAdjacent)."),
         design_ref='§8 C07'),
     'C08': dict(
         technique='Lean 4 proof (loop invariant of remove_empty_volumes, optimise invariant) + Lean reader evaluating WellFormed on the written bytes',
